@@ -3,6 +3,8 @@
 #include "vs.h"
 #include "celma/log/files/counted.hpp"
 #include "celma/log/files/max_size.hpp"
+#include "celma/log/files/handler.hpp"
+#include "celma/log/detail/i_format_stream.hpp"
 #include "celma/log/filename/creator.hpp"
 #include "celma/log/filename/definition.hpp"
 #include "celma/log/detail/log_msg.hpp"
@@ -45,11 +47,21 @@ std::string content_of(int gen) {
 }
 size_t entries_in(const std::string& s) { size_t n = 0; for (char c : s) n += c == '\n'; return n; }
 }
+namespace { struct TextOnly : detail::IFormatStream { void format(std::ostream& out, const detail::LogMsg& m) const override { out << m.getText(); } }; }
+// policy: bit 1 set: the messages go through files::Handler< Policy> (formatter writing the message text) instead of directly into the policy
 // policy: 0 Counted(limit = max entries), 1 MaxSize(limit = max bytes); gens generations; hist: 2 bits per event (1 = write, 2 = restart), 0 terminates
 HX void hx_files(uint64_t policy, uint64_t limit, uint64_t gens, uint64_t hist) {
    filename::Definition def; { filename::Creator c(def); c << "log." << filename::number; }
-   std::unique_ptr<files::PolicyBase> p;
-   auto make = [&] { if (policy == 0) p.reset(new files::Counted(def, limit, (int) gens)); else p.reset(new files::MaxSize(def, limit, (int) gens)); p->open(); };
+   const bool via_handler = policy & 2; policy &= 1;
+   std::unique_ptr<files::PolicyBase> p; std::unique_ptr<files::Handler<files::Counted>> hc; std::unique_ptr<files::Handler<files::MaxSize>> hm;
+   auto make = [&] {
+      if (via_handler) {
+         hc.reset(); hm.reset();
+         if (policy == 0) { hc.reset(new files::Handler<files::Counted>(new files::Counted(def, limit, (int) gens))); hc->setFormatter(new TextOnly); }
+         else { hm.reset(new files::Handler<files::MaxSize>(new files::MaxSize(def, limit, (int) gens))); hm->setFormatter(new TextOnly); }
+         return;
+      }
+      if (policy == 0) p.reset(new files::Counted(def, limit, (int) gens)); else p.reset(new files::MaxSize(def, limit, (int) gens)); p->open(); };
    make();
    detail::LogMsg msg("f.cpp", "fn", 1);
    std::string all;               // everything ever written, in order, each message followed by '\n'
@@ -58,9 +70,11 @@ HX void hx_files(uint64_t policy, uint64_t limit, uint64_t gens, uint64_t hist) 
       if ((hist & 3) == 2) { p.reset(); make(); }
       else {
          unsigned len = vs_u8("len"); vs_assume(len >= 1 && len <= 3);
+         if (via_handler) len = 4 - len;               // the first messages tend to be the longer ones
          std::string text(len, (char) ('a' + nmsg)); ++nmsg;
          const std::string before = content_of(0); const int rolls_before = rolls;
-         p->writeMessage(msg, text);
+         if (via_handler) { msg.setText(text); if (policy == 0) hc->handleMessage(msg); else hm->handleMessage(msg); }
+         else p->writeMessage(msg, text);
          all += text; all += '\n';
          // a new generation is started only when the next message would exceed the limit
          if (rolls != rolls_before || (gens == 1 && content_of(0).size() < before.size() + len + 1)) {
